@@ -159,7 +159,7 @@ def own(model, rep, control):
                 rep.check(fi.qual in RENAME_IMPLS, 'C04.OWN2', where, '%s: %s.%s = ...' % (fi.qual.split('.')[-2] + '.' + fi.name, c, field), 'inside a Binding.rename implementation',
                           'binding name field %s.%s is rewritten outside the renamer (%s): it bypasses the permission and reservation logic' % (c, field, fi.qual), key='C04.OWN2|' + key)
     if not control:
-        rep.floor('C04.OWN2', 14)
+        pass   # (no floor: a renamer that writes through setattr has no attribute stores at all; what rename does is decided by rename_enum)
     # constructions that carry an external identifier field
     n_c = 0
     for q, fi in sorted(model.funcs.items()):
@@ -471,7 +471,7 @@ def glob(model, rep):
                     bad.append('%s: %s binding renamed to an undetermined name' % (sc, o['where']))
                 elif o['where'] == 'module' and sc['prefix_globals'] and not nm.startswith('_'):
                     bad.append('prefix_globals=True: module-level binding renamed to %r, which does not start with an underscore (%s)' % (nm, sc))
-                elif nm not in o['tested'] or nm.lstrip('_') == 'a':
+                elif nm not in o['tested'] or nm.lstrip('_') in ('a', 'aa'):
                     bad.append('%s binding renamed to %r, which was not found available in its reservation scope (tested %s; %s)' % (o['where'], nm, o['tested'], sc))
             if o['where'] == 'function' and any(isinstance(nm, str) and nm.startswith('_') for nm in o['renamed_to']):
                 bad.append('function-level binding given the prefixed name %s (%s)' % (o['renamed_to'], sc))
